@@ -151,6 +151,16 @@ fn run_pts3(ps: Vec<Pt3>, d: Pt3, ps2: Vec<Pt2>, z: f64) -> (String, Res) {
 }
 
 pub fn generate(rng: &mut Rng, thorough: bool, out: &mut Out) {
+    // very short and very long vectors (normalisation, lengths)
+    for e in [-150i32, -60, -20, -12, -9, -8, -7, -5, 5, 9, 20, 60] {
+        let s = 10f64.powi(e);
+        let (q, r) = run_pt2(Pt2::new(1.0 * s, -2.0 * s), Pt2::new(3.0 * s, 0.5 * s), 2.0, 0.25, 1, 1.0);
+        out.case(q, r);
+        let (q, r) = run_pt3(Pt3::new(1.0 * s, 2.0 * s, -2.0 * s), Pt3::new(0.5 * s, -3.0 * s, 4.0 * s), 2.0, 0.25, 2, 1.0);
+        out.case(q, r);
+        let (q, r) = run_pt4(Pt4::new(1.0 * s, 2.0 * s, -2.0 * s, 7.0), Pt4::new(0.5 * s, -3.0 * s, 4.0 * s, -1.0), 2.0, 0.25, 3, 1.0);
+        out.case(q, r);
+    }
     let n = if thorough { 60000 } else { 3000 };
     for it in 0..n {
         let k = rng.fnz();
